@@ -1076,6 +1076,67 @@ func c18Main(e *Env) {
 			}
 		}
 	}
+	// the same through a setter helper: set(&i.GitVersion, version) with set(dst, val) { if val != "" { *dst = val } }
+	if !okLd {
+		for _, c := range callsIn(fn, false) {
+			g := c.Common().StaticCallee()
+			if g == nil || !e.P.InModule(g) || len(g.Params) != len(c.Common().Args) {
+				continue
+			}
+			di, vi := -1, -1
+			for i, a := range c.Common().Args {
+				if fa, isFa := a.(*ssa.FieldAddr); isFa && fieldName(fa) == "GitVersion" {
+					di = i
+				}
+				if ld, isLd := a.(*ssa.UnOp); isLd {
+					if gl, isG := ld.X.(*ssa.Global); isG && gl.Name() == "version" {
+						vi = i
+					}
+				}
+			}
+			if di < 0 || vi < 0 {
+				continue
+			}
+			for _, b := range g.Blocks {
+				for _, ins := range b.Instrs {
+					st, isSt := ins.(*ssa.Store)
+					if !isSt || st.Addr != ssa.Value(g.Params[di]) || st.Val != ssa.Value(g.Params[vi]) {
+						continue
+					}
+					okG := true
+					for _, blk := range g.Blocks {
+						iff, isIf := blk.Instrs[len(blk.Instrs)-1].(*ssa.If)
+						if !isIf {
+							continue
+						}
+						for _, onTrue := range []bool{true, false} {
+							if !edgeDominates(blk, onTrue, st) {
+								continue
+							}
+							good := false
+							if bo, isB := iff.Cond.(*ssa.BinOp); isB && bo.X == ssa.Value(g.Params[vi]) {
+								if k, isK := constString(bo.Y); isK && k == "" {
+									good = (bo.Op == token.NEQ) == onTrue
+								}
+							}
+							if !good {
+								okG = false
+							}
+						}
+					}
+					// and the call itself is unconditional in fn
+					for _, blk := range fn.Blocks {
+						if _, isIf := blk.Instrs[len(blk.Instrs)-1].(*ssa.If); isIf && (edgeDominates(blk, true, c) || edgeDominates(blk, false, c)) {
+							okG = false
+						}
+					}
+					if okG {
+						okLd = true
+					}
+				}
+			}
+		}
+	}
 	r.Check(okLd, "R18.5", key+"#ldflags-version-used", "the injected version (package variable version) is assigned to the build version whenever it is non-empty ("+whyLd+")")
 	c18Chain(e)
 	if n == 0 {
